@@ -72,7 +72,12 @@ func c09Build(s c09Spec) *fbb.Message {
 		m.AddFile(fbb.NewFile(f.Name, f.Data))
 	}
 	for k, v := range s.Extra {
-		m.Header.Set(k, v)
+		// (the key as an application writes it, not in canonical form; half of them through Add)
+		if len(k)%2 == 0 {
+			m.Header.Add(k, v)
+		} else {
+			m.Header.Set(k, v)
+		}
 	}
 	return m
 }
